@@ -107,6 +107,33 @@ def run (H : Str → Str) : State → List Op → State
   | s, [] => s
   | s, op :: ops => run H (step H s op).st ops
 
+/-! ### transactions of several messages -/
+
+/-- the messages of one transaction, run one after the other on a branch of the state; `none` as soon as one is refused -/
+def runBatch (H : Str → Str) : State → List Op → Option State
+  | s, [] => some s
+  | s, op :: ops => if isOk (step H s op).out then runBatch H (step H s op).st ops else none
+
+/-- position of the first refused message -/
+def batchFailIndex (H : Str → Str) : State → List Op → Nat
+  | _, [] => 0
+  | s, op :: ops => if isOk (step H s op).out then batchFailIndex H (step H s op).st ops + 1 else 0
+
+/-- baseapp's rule: the branch is written only when every message succeeded -/
+def atomicStep (H : Str → Str) (s : State) (ops : List Op) : State := (runBatch H s ops).getD s
+
+inductive HistItem
+  | single (op : Op)
+  | atomic (ops : List Op)
+
+def stepEntry (H : Str → Str) (s : State) : HistItem → State
+  | .single op => (step H s op).st
+  | .atomic ops => atomicStep H s ops
+
+def runEntries (H : Str → Str) : State → List HistItem → State
+  | s, [] => s
+  | s, tx :: txs => runEntries H (stepEntry H s tx) txs
+
 /-- the state after `InitGenesis` of the default genesis used by the harness: five bonded validators of one unit each,
     default parameters, and the round description for the first block already published -/
 def defaultOParams : OParams :=
